@@ -563,9 +563,11 @@ func singleQuoted(s string) string {
 
 // needsSingleQuoting reports plain scalars that goccy leaves unquoted
 // but that decoders read as something else entirely: the "?" explicit
-// key indicator alone or followed by a space, and the "<<" merge key.
+// key indicator alone or followed by a space, the "<<" merge key (goccy
+// also takes a key merely ending in "<<" for one), and scalars starting
+// with the "..." document end marker.
 func needsSingleQuoting(s string) bool {
-	return s == "?" || strings.HasPrefix(s, "? ") || s == "<<"
+	return s == "?" || strings.HasPrefix(s, "? ") || strings.HasSuffix(s, "<<") || strings.HasPrefix(s, "...")
 }
 
 // quoteScalar returns the pre-quoted rendering of a single-line string
@@ -574,9 +576,11 @@ func needsSingleQuoting(s string) bool {
 // for those of [shouldQuote].
 func quoteScalar(s string) string {
 	switch {
-	case needsSingleQuoting(s):
+	case needsSingleQuoting(s) && !yamlUnprintable(s):
+		// Single quotes cannot escape anything: strings with characters
+		// that need escaping fall through to double quotes.
 		return singleQuoted(s)
-	case shouldQuote(s):
+	case shouldQuote(s) || needsSingleQuoting(s):
 		return strconv.Quote(s)
 	}
 	return ""
